@@ -32,9 +32,26 @@ pub fn run(seed: u64, n: usize, driver: &str, out: &str) -> serde_json::Value {
     let mut evals = 0u64;
     let mut nontrivial = 0u64;
     let thrs = [0.0f32, 0.05, 0.1, 0.2, 0.3, 0.5, 0.7, 0.79, 0.8, 0.81, 1.0];
+    // minimised witnesses of past findings run first (default include list, every threshold of the sweep)
+    let mut corpus_texts: Vec<String> = vec![];
+    if let Ok(rd) = std::fs::read_dir("/verif/corpus/cd") {
+        let mut ps: Vec<_> = rd.filter_map(|e| e.ok().map(|e| e.path())).collect();
+        ps.sort();
+        for p in ps {
+            if let Ok(txt) = std::fs::read_to_string(&p) {
+                if let Ok(v) = serde_json::from_str::<serde_json::Value>(&txt) {
+                    for it in v.as_array().cloned().unwrap_or_default() {
+                        if let Some(h) = it["text_hex"].as_str() {
+                            if let Ok(t) = String::from_utf8(unhex(h)) { corpus_texts.push(t); }
+                        }
+                    }
+                }
+            }
+        }
+    }
     for i in 0..n {
         // a chunk-like text: corpus text slice, mixed scripts, or repeated alphabet soup
-        let t: String = match rng.below(5) {
+        let t: String = if i < corpus_texts.len() { corpus_texts[i].clone() } else { match rng.below(5) {
             0 => {
                 let a = rng.pick(&corpus.texts);
                 let b = rng.pick(&corpus.texts);
@@ -55,7 +72,7 @@ pub fn run(seed: u64, n: usize, driver: &str, out: &str) -> serde_json::Value {
                 let a = rng.pick(&corpus.texts);
                 a.chars().skip(rng.below(500)).take(rng.range(1, 512)).collect()
             }
-        };
+        } };
         // the script layers: cd::alpha_unicode_split against Model/Layers.v (oracles: std is_alphabetic / to_lowercase)
         {
             evals += 1;
@@ -81,13 +98,13 @@ pub fn run(seed: u64, n: usize, driver: &str, out: &str) -> serde_json::Value {
                 diffs.push(json!({"what": "characters_popularity_compare (jaro)", "language": format!("{:?}", lang), "chars_hex": hex(sample.as_bytes()), "real": real, "model": model}));
             }
         }
-        let thr = *rng.pick(&thrs);
-        let include: Vec<&'static Language> = match rng.below(6) {
+        let thr = if i < corpus_texts.len() { 0.7 } else { *rng.pick(&thrs) };
+        let include: Vec<&'static Language> = if i < corpus_texts.len() { vec![] } else { match rng.below(6) {
             0 => vec![unknown],
             1 => vec![*rng.pick(&pool)],
             2 => (0..rng.range(2, 5)).map(|_| *rng.pick(&pool)).collect(),
             _ => vec![],
-        };
+        } };
         let inc_s = if include.is_empty() { "-".to_string() } else { include.iter().map(|l| format!("{:?}", l)).collect::<Vec<_>>().join(",") };
         evals += 1;
         let real = match hooks::coherence_ratio_no_cache(t.clone(), Some(thr), Some(include.clone())) {
